@@ -61,9 +61,11 @@ type Engine struct {
 	job        *jobCtx
 	// restrictSeq counts events that restrict the set of inputs on a path (assumptions, structural
 	// choices, key-match forks); regions during which it did not move keep their entry condition.
-	restrictSeq int
-	Findings    []Finding
-	Verbose     bool
+	restrictSeq      int
+	primaryStruggles int
+	oneBuf           [1]cont
+	Findings         []Finding
+	Verbose          bool
 }
 
 // Load builds the SSA program for the given package patterns (resolved from dir, normally /verif).
@@ -613,20 +615,39 @@ func (e *Engine) solveOb(st *State, label string, goal *term.Term, note, finding
 		values = append(values, st.tags[k])
 	}
 	q := smt.Query{Asserts: []*term.Term{goal}, Values: values}
-	ans := e.Solver.Check(q)
+	// adaptive order: when the primary back end has just timed out several times in a row while a
+	// fallback decided the same queries, the fallbacks are asked first for the rest of this worker
+	var ans smt.Answer
 	used := e.Solver.Kind
-	if ans.Res == smt.Unknown {
+	tryFallbacks := func(spent float64) bool {
 		for _, k := range e.FallbackKinds {
 			fb := e.fallback(k)
 			if fb == nil {
 				continue
 			}
 			a2 := fb.Check(q)
-			a2.Sec += ans.Sec
+			a2.Sec += spent
 			if a2.Res != smt.Unknown {
 				ans, used = a2, k
-				break
+				return true
 			}
+			spent = a2.Sec
+		}
+		return false
+	}
+	if e.primaryStruggles >= 3 && len(e.FallbackKinds) > 0 {
+		if !tryFallbacks(0) {
+			ans = e.Solver.Check(q)
+			used = e.Solver.Kind
+		}
+	} else {
+		ans = e.Solver.Check(q)
+		if ans.Res == smt.Unknown {
+			if tryFallbacks(ans.Sec) {
+				e.primaryStruggles++
+			}
+		} else {
+			e.primaryStruggles = 0
 		}
 	}
 	ob := ObResult{Label: label, Sec: ans.Sec, Note: note, Size: term.Size(goal), Solver: used}
